@@ -29,47 +29,63 @@ def run(ctx):
     sc.gen_notes(ctx)
     ctx.prove("C15")
     R = sc.Runner(ctx)
-    L = ctx.n(3, 3)
-    srcs = sc.exhaustive(sc.ALPHA, L)
-    nex = len(srcs)
+    groups = []                                   # (name, [src], modes)
+    L = 3
+    ex = sc.exhaustive(sc.ALPHA, L)
+    groups.append(("exhaustive-bytes", ex, (True, False)))
     if not ctx.quick:
         import itertools
-        srcs += [b"".join(t) for t in itertools.product(sc.ALPHA_SMALL, repeat=4)]
-    nex2 = len(srcs)
+        groups.append(("exhaustive-bytes-4", [b"".join(t) for t in itertools.product(sc.ALPHA_SMALL, repeat=4)], (True, False)))
+    core = sc.tok_exhaustive(sc.TOK_CORE, ctx.n(5, 6))
+    groups.append(("exhaustive-tokens-core", core, (True,)))
+    wide = sc.tok_exhaustive(sc.TOK_WIDE, 3)
+    groups.append(("exhaustive-tokens-wide", wide, (True, False)))
     shapes = {}
+    rnd = []
     nrand = ctx.n(6000, 300000)
     for i in range(nrand):
         s, shape = sc.random_sequence(ctx.rng, malformed=(40 if i % 3 == 0 else 0))
-        srcs.append(s)
+        rnd.append(s)
         k = "len%d%s" % (min(len(shape.rstrip("~")), 7), "+mut" if shape.endswith("~") else "")
         shapes[k] = shapes.get(k, 0) + 1
-    cases = [sc.case("x", m, s) for s in srcs for m in (True, False)]
+    groups.append(("lexeme-sequences", rnd, (True, False)))
+    st = [sc.stateful_sequence(ctx.rng, extra=(b"1m", b"3r", b"//c\n", b"/*c*/", b"#c\n", b"return", b"?"))[0] for _ in range(ctx.n(4000, 100000))]
+    groups.append(("stateful-sequences", st, (True, False)))
+    cases, gname = [], []
+    for name, srcs, modes in groups:
+        for s in srcs:
+            for m in modes:
+                cases.append(sc.case("x", m, s))
+                gname.append(name)
     impl, model = R.correspond("scan(XGo)~scanner.Scan", cases)
-    # direct oracle
-    verdicts = {}
-    for c, (r, v) in zip(cases, impl):
+    # direct oracle: the four clauses, evaluated by the harness on the real scanner's output
+    verdicts, per_group, toks_hist = {}, {}, {}
+    distinct = 0
+    for c, g, (r, v) in zip(cases, gname, impl):
         verdicts[v] = verdicts.get(v, 0) + 1
+        per_group[g] = per_group.get(g, 0) + 1
+        n = sc.ntokens(r)
+        if n >= 3:
+            distinct += 1
+        k = "tokens=%d" % min(n, 8)
+        toks_hist[k] = toks_hist.get(k, 0) + 1
         if v != "ok":
             src = sc.src_of(c)
             ctx.fail(sc.key_of("src", c[:2].encode() + src), "C15 clause fails on %r (%s): %s" % (src, c[:2], v),
                      {"case": c, "src_repr": repr(src), "mode": c[1], "verdict": v, "impl": r[:400]})
-    distinct = set()
-    toks_hist = {}
-    for c, (r, v) in zip(cases, impl):
-        st, toks, errs = sc.parse_result(r)
-        if len(toks) >= 3:
-            distinct.add(c)
-        k = "tokens=%d" % min(len(toks), 8)
-        toks_hist[k] = toks_hist.get(k, 0) + 1
-    ctx.cover(evaluations=len(cases), distinct_nontrivial=len(distinct),
-              samples=[{"case": cases[i], "src": repr(sc.src_of(cases[i])), "impl": impl[i][0][:200]}
-                       for i in (2 * nex - 2, 2 * nex2 + 3, 2 * nex2 + 11, len(cases) - 1)],
-              rule="exhaustive: all %d strings of <=%d symbols over a %d-symbol alphabet%s, x2 comment modes; + %d seeded lexeme "
-                   "sequences (identifiers, numbers, strings, operators, comments incl. line directives, odd bytes; random "
-                   "separators), one third of them mutated by a byte deletion/duplication/replacement (malformed stream); "
-                   "non-trivial = distinct case whose stream has >= 3 tokens"
-                   % (nex, L, len(sc.ALPHA), "" if ctx.quick else " + all length-4 strings over %d symbols" % len(sc.ALPHA_SMALL), nrand),
-              exhaustive=True, exhaustive_part=2 * nex2, oracle_verdicts=verdicts,
+    pick = [2 * len(ex) - 2, 2 * len(ex) + len(core) // 2, len(cases) - 2 * len(st) - 7, len(cases) - 1]
+    ctx.cover(evaluations=len(cases), distinct_nontrivial=distinct,
+              samples=[{"case": cases[i], "src": repr(sc.src_of(cases[i])), "impl": impl[i][0][:200]} for i in pick],
+              rule="exhaustive: all %d strings of <=%d symbols over a %d-symbol byte alphabet x2 comment modes%s; token-level: all %d "
+                   "sequences of <=%d lexemes over %s and all %d sequences of <=3 lexemes over a %d-lexeme alphabet (multi-character "
+                   "operators, comments, unit numbers as single symbols; reaches state carried across tokens: nParen, insertSemi, "
+                   "pending unit); %d seeded lexeme sequences (identifiers, numbers, strings, operators, comments incl. line "
+                   "directives, odd bytes; random separators), one third mutated by a byte deletion/duplication/replacement "
+                   "(malformed stream); %d seeded stateful sequences of 4-12 lexemes ( ( ) ; ... ! newline literals units comments). "
+                   "All cases are distinct inputs; non-trivial = stream of >= 3 tokens"
+                   % (len(ex), L, len(sc.ALPHA), "" if ctx.quick else " + all length-4 strings over %d symbols" % len(sc.ALPHA_SMALL),
+                      len(core), ctx.n(5, 6), b" ".join(sc.TOK_CORE).decode("latin1").replace("\n", "\\n"), len(wide), len(sc.TOK_WIDE), nrand, len(st)),
+              exhaustive=True, cases_per_group=per_group, oracle_verdicts=verdicts,
               random_shape_histogram=dict(sorted(shapes.items())), token_count_histogram=dict(sorted(toks_hist.items())))
     ctx.trust("modelled, not verified: scanner/scanner.go (Scan, next, scanComment, updateLineInfo error part, findLineEnd, "
               "scanIdentifier, scanNumber, digits, invalidSep, scanEscape, scanRune, scanString, scanRawString, stripCR, "
